@@ -1,1 +1,873 @@
-"""Suites for the small stateful objects: C15 (benchmark problems), C17 (Evolvent), C19 (containers)."""
+"""Suites for the small stateful objects: C15 (benchmark problems), C17 (Evolvent),
+C19 (search-data containers).  The simulator is the driver: it decides the call history."""
+import copy
+import itertools
+import math
+
+import numpy as np
+
+from . import core
+from . import objectives
+from .isolate import fork_call
+from .suites import Report, register
+from .world import _reraise_if_harness
+
+from iOpt.evolvent.evolvent import Evolvent
+from iOpt.trial import Point, FunctionValue, FunctionType
+from iOpt.method.search_data import SearchData, SearchDataDualQueue, SearchDataItem, CharacteristicsQueue
+from iOpt.solver import Solver
+from iOpt.solver_parametrs import SolverParameters
+
+SMALL_REAL = ["Evolvent", "SearchData", "SearchDataDualQueue", "CharacteristicsQueue (+ real depq)", "SearchDataItem",
+              "all shipped benchmark problems and their generators", "Solver (as a co-actor in C15)"]
+SMALL_SIM = ["the caller: which method is called next, with which argument, on which object (call history)",
+             "sibling instances constructed / evaluated in between", "caller-side aliasing: arguments and returned arrays re-used and overwritten"]
+
+
+class SmallSuite:
+    prop = None
+    level = "exploration"
+    quick_runs = 1000
+    thorough_runs = 10000
+    rule = ""
+    components_real = SMALL_REAL
+    components_sim = SMALL_SIM
+
+    def cases(self, rng, tier, run_seed):
+        yield self.gen_plan(rng, tier, run_seed)
+
+
+def _r(rng, lo, hi):
+    return float("%.6g" % rng.uniform(lo, hi))
+
+
+# ----------------------------------------------------------------------------------- C17
+
+@register
+class C17(SmallSuite):
+    prop = "C17"
+    quick_runs = 8000
+    thorough_runs = 150000
+    rule = ("one Evolvent per run (N=1..5, density m with N*m<=50) driven by a random stream of GetImage / GetInverseImage / "
+            "GetPreimages / SetBounds calls; x from {0, 1, 1/2, uniform, grid points k/2^(N*m), 1-1e-9}; y uniform in the current "
+            "box passed as float ndarray, list, or the very array an earlier GetImage returned; the caller also overwrites arrays "
+            "it received earlier and arrays it passed to SetBounds. Oracle per op: result == a fresh Evolvent(current bounds, N, m) "
+            "answering that single query, the argument is unchanged, every array returned earlier still equals its copy. "
+            "non-trivial: >=3 different op kinds and a SetBounds between two queries; distinct = hash of the op-kind sequence + (N, m)")
+
+    def gen_plan(self, rng, tier, run_seed):
+        N = rng.choice([1, 1, 2, 2, 3, 4, 5])
+        m = rng.randint(1, min(20, 50 // N)) if rng.random() < 0.7 else rng.choice([10, 50 // N])
+        lower, upper = objectives.gen_box(rng, N)
+        n_ops = rng.randint(4, 40)
+        ops = []
+        box = (list(lower), list(upper))
+        n_ret = 0
+        n_bounds = 1
+        for _ in range(n_ops):
+            u = rng.random()
+            if u < 0.4:
+                k = rng.random()
+                if k < 0.1:
+                    x = rng.choice([0.0, 1.0, 0.5])
+                elif k < 0.3:
+                    cells = 2 ** (N * m)
+                    x = rng.randrange(cells) / cells
+                elif k < 0.35:
+                    x = 1.0 - 1e-9 * rng.random()
+                else:
+                    x = rng.random()
+                ops.append({"op": "image", "x": x})
+                n_ret += 1
+            elif u < 0.75:
+                kind = rng.choice(["inverse", "preimages"])
+                how = rng.choice(["array", "array", "list", "ret"]) if n_ret else rng.choice(["array", "list"])
+                o = {"op": kind, "as": how}
+                if how == "ret":
+                    o["ret"] = rng.randrange(n_ret)
+                else:
+                    o["y"] = [l + (h - l) * rng.random() for l, h in zip(*box)]
+                ops.append(o)
+            elif u < 0.87:
+                lo, hi = objectives.gen_box(rng, N)
+                box = (lo, hi)
+                ops.append({"op": "setbounds", "lower": lo, "upper": hi})
+                n_bounds += 1
+            elif u < 0.94 and n_ret:
+                ops.append({"op": "scribble", "ret": rng.randrange(n_ret), "value": _r(rng, -1e3, 1e3)})
+            else:
+                ops.append({"op": "scribble_bounds", "which": rng.randrange(n_bounds), "value": _r(rng, -1e3, 1e3)})
+        return {"property": self.prop, "suite": "evolvent", "format": 1, "run_seed": run_seed, "N": N, "m": m,
+                "lower": lower, "upper": upper, "ops": ops}
+
+    def check(self, plan):
+        rep = Report()
+        P = self.prop
+        N, m = plan["N"], plan["m"]
+        events = []
+
+        def bad(clause, msg):
+            rep.violations.append(core.Violation(P, clause, msg, "evolvent"))
+        lo0 = np.array(plan["lower"], dtype=np.double)
+        hi0 = np.array(plan["upper"], dtype=np.double)
+        bounds_args = [(lo0, hi0)]
+        cur = (list(plan["lower"]), list(plan["upper"]))
+        try:
+            ev = Evolvent(lo0, hi0, N, m)
+        except BaseException as e:
+            _reraise_if_harness(e)
+            bad("construct", "Evolvent(...) raised %r" % (e,))
+            return rep
+        returned = []     # (live array, copy at return time, scribbled?)
+        kinds = set()
+        bounds_between = False
+        q_before_bounds = False
+        for i, op in enumerate(plan["ops"]):
+            k = op["op"]
+            kinds.add(k)
+            try:
+                if k == "image":
+                    x = op["x"]
+                    got = ev.GetImage(x)
+                    want = Evolvent(np.array(cur[0]), np.array(cur[1]), N, m).GetImage(x)
+                    events.append("image %s -> %s" % (core.fhex(x), core.vhex(got)))
+                    if not _arr_eq(got, want):
+                        bad("history_dependent", "op %d GetImage(%r) = %r, a fresh object answers %r" % (i, x, list(got), list(want)))
+                        break
+                    returned.append([got, np.array(got, copy=True)])
+                    q_before_bounds = True
+                elif k in ("inverse", "preimages"):
+                    if op["as"] == "ret":
+                        arg = returned[op["ret"]][0]
+                    elif op["as"] == "list":
+                        arg = [float(v) for v in op["y"]]
+                    else:
+                        arg = np.array(op["y"], dtype=np.double)
+                    before = copy.deepcopy(arg) if isinstance(arg, list) else np.array(arg, copy=True)
+                    fresh_arg = copy.deepcopy(before)
+                    fn = ev.GetInverseImage if k == "inverse" else ev.GetPreimages
+                    got = fn(arg)
+                    fe = Evolvent(np.array(cur[0]), np.array(cur[1]), N, m)
+                    want = (fe.GetInverseImage if k == "inverse" else fe.GetPreimages)(fresh_arg)
+                    events.append("%s %s -> %s" % (k, core.vhex(before), core.fhex(got)))
+                    if not _same_arg(arg, before):
+                        bad("argument_modified", "op %d %s modified its argument: %r -> %r" % (i, k, list(before), list(arg)))
+                        break
+                    if float(got) != float(want):
+                        bad("history_dependent", "op %d %s(%r) = %r, a fresh object answers %r" % (i, k, list(before), got, want))
+                        break
+                    if bounds_between:
+                        pass
+                    q_before_bounds = True
+                elif k == "setbounds":
+                    lo = np.array(op["lower"], dtype=np.double)
+                    hi = np.array(op["upper"], dtype=np.double)
+                    bounds_args.append((lo, hi))
+                    ev.SetBounds(lo, hi)
+                    cur = (list(op["lower"]), list(op["upper"]))
+                    events.append("setbounds")
+                    if q_before_bounds:
+                        bounds_between = True
+                elif k == "scribble":
+                    arr = returned[op["ret"]][0]
+                    arr[...] = op["value"]
+                    returned[op["ret"]][1] = np.array(arr, copy=True)
+                    events.append("scribble %d" % op["ret"])
+                elif k == "scribble_bounds":
+                    lo, hi = bounds_args[op["which"] % len(bounds_args)]
+                    lo[...] = op["value"]
+                    hi[...] = op["value"] - 1.0
+                    events.append("scribble_bounds")
+            except core.HarnessError:
+                raise
+            except BaseException as e:
+                _reraise_if_harness(e)
+                bad("raised", "op %d %s raised %r" % (i, k, e))
+                break
+            for j, (live, cp) in enumerate(returned):
+                if not _arr_eq(live, cp):
+                    bad("returned_array_changed", "after op %d (%s) the array returned by query #%d changed: %r -> %r" % (i, k, j, list(cp), list(live)))
+                    break
+            if rep.violations:
+                break
+        rep.digest = core.sha("\n".join(events))
+        rep.n_ops = len(plan["ops"])
+        rep.sig = core.short_hash([o["op"] for o in plan["ops"]])
+        q = {"image", "inverse", "preimages"} & kinds
+        if len(kinds) >= 3 and bounds_between and q:
+            rep.nontrivial = core.short_hash((rep.sig, N, m))
+        rep.probes["N1_runs"] += int(N == 1)
+        rep.probes["arg_is_returned_array"] += sum(1 for o in plan["ops"] if o.get("as") == "ret")
+        rep.probes["setbounds"] += sum(1 for o in plan["ops"] if o["op"] == "setbounds")
+        rep.probes["scribbles"] += sum(1 for o in plan["ops"] if o["op"].startswith("scribble"))
+        return rep
+
+
+def _arr_eq(a, b):
+    try:
+        a = np.asarray(a)
+        b = np.asarray(b)
+        return a.shape == b.shape and a.dtype == b.dtype and bool(np.all(a == b))
+    except Exception:
+        return False
+
+
+def _same_arg(arg, before):
+    if isinstance(arg, list):
+        return isinstance(before, list) and len(arg) == len(before) and all(type(a) is type(b) and a == b for a, b in zip(arg, before))
+    return _arr_eq(arg, before)
+
+
+# ----------------------------------------------------------------------------------- C15
+
+FAMILIES = ["GKLS", "Grishagin", "Hill", "Shekel", "Shekel4", "Rastrigin", "XSquared", "StronginC3"]
+
+
+def _member(rng, fam=None):
+    fam = fam or rng.choice(["GKLS", "GKLS", "Hill", "Hill", "Shekel", "Shekel", "Shekel4", "Rastrigin", "XSquared",
+                             "StronginC3", "Grishagin"])
+    if fam == "GKLS":
+        return {"cls": "GKLS", "args": [rng.randint(2, 5), rng.randint(1, 100)]}
+    if fam == "Grishagin":
+        return {"cls": "Grishagin", "args": [rng.randint(1, 100)]}
+    if fam in ("Hill", "Shekel"):
+        return {"cls": fam, "args": [rng.randint(0, 999)]}
+    if fam == "Shekel4":
+        return {"cls": "Shekel4", "args": [rng.randint(1, 3)]}
+    if fam == "StronginC3":
+        return {"cls": "StronginC3", "args": []}
+    return {"cls": fam, "args": [rng.randint(1, 5)]}
+
+
+def _clean_room(members, queries):
+    """For every (member, point, fid): the value from an instance constructed for that purpose
+    and evaluated once.  Runs in a forked child."""
+    out = {}
+    structured = {}
+    for mk, mem in members.items():
+        p = objectives.make_shipped({"family": "shipped", **mem})
+        lo = [float(v) for v in p.lowerBoundOfFloatVariables]
+        hi = [float(v) for v in p.upperBoundOfFloatVariables]
+        st = {"lower": lo, "upper": hi, "N": int(p.numberOfFloatVariables), "special": []}
+        try:
+            st["special"].append([float(v) for v in p.knownOptimum[0].point.floatVariables])
+        except Exception:
+            pass
+        try:
+            mins = p.function.GKLS_minima
+            for j in range(len(mins.local_min)):
+                c = [float(v) for v in mins.local_min[j]]
+                st["special"].append(c)
+                rho = float(mins.rho[j])
+                if rho > 0:
+                    b = list(c)
+                    b[0] = min(hi[0], max(lo[0], c[0] + rho))
+                    st["special"].append(b)
+        except Exception:
+            pass
+        structured[mk] = st
+    for (mk, pt, fid) in queries:
+        mem = members[mk]
+        p = objectives.make_shipped({"family": "shipped", **mem})
+        fv = FunctionValue() if fid is None else FunctionValue(FunctionType.CONSTRAINT, fid)
+        r = p.Calculate(Point(np.array(pt, dtype=np.double), []), fv)
+        out[(mk, tuple(pt), fid)] = float(r.value)
+    return out, structured
+
+
+@register
+class C15(SmallSuite):
+    prop = "C15"
+    quick_runs = 1500
+    thorough_runs = 24000
+    rule = ("a pool of benchmark problem actors drawn from all shipped families (GKLS 2-5 x 1-100, Grishagin, Hill, Shekel, "
+            "Shekel4, Rastrigin, XSquared, StronginC3 objective + 3 constraints); ops: construct(member) - several instances of "
+            "the same member and of sibling members coexist -, evaluate(actor, point), drop(actor), solve_some(actor) (a real "
+            "Solver iterates on the actor in between). Points: uniform in the box plus declared optimum, GKLS minimisers and "
+            "ball boundaries, corners, each revisited at several schedule positions. Oracle: every evaluation == clean-room "
+            "value (an instance constructed for that purpose in a fresh process and evaluated once), bit for bit; point array "
+            "unchanged (dtype included); returned object is the supplied holder and holds the value. non-trivial: some "
+            "(member, point) evaluated >=3 times with a construction of another member of the same family in between; distinct "
+            "= hash of (members, op-kind sequence)")
+
+    def gen_plan(self, rng, tier, run_seed):
+        n_members = rng.choice([1, 2, 2, 3])
+        fam0 = rng.choice(["GKLS", "GKLS", "Hill", "Shekel", "Shekel4", "Rastrigin", "XSquared", "StronginC3", "Grishagin"])
+        members = {}
+        for i in range(n_members):
+            # siblings of the same family are the interesting company
+            members["M%d" % i] = _member(rng, fam0 if rng.random() < 0.75 else None)
+        if sum(1 for mm in members.values() if mm["cls"] == "Grishagin") > 1:
+            for k in list(members)[1:]:
+                if members[k]["cls"] == "Grishagin":
+                    members[k] = _member(rng, "Hill")
+        # points are chosen as fractions of the box / indices of special points; resolved in check()
+        pts = {}
+        for mk in members:
+            pts[mk] = []
+            for _ in range(rng.randint(1, 3)):
+                u = rng.random()
+                if u < 0.5:
+                    pts[mk].append({"kind": "frac", "t": [float("%.6g" % rng.random()) for _ in range(5)]})
+                elif u < 0.8:
+                    pts[mk].append({"kind": "special", "i": rng.randrange(40)})
+                else:
+                    pts[mk].append({"kind": "frac", "t": [float(rng.choice([0, 1])) for _ in range(5)]})
+        ops = []
+        slots = []
+        n_ops = rng.randint(8, 36)
+        for mk in members:
+            ops.append({"op": "construct", "slot": len(slots), "member": mk})
+            slots.append(mk)
+        for _ in range(n_ops):
+            u = rng.random()
+            if u < 0.2:
+                mk = rng.choice(list(members))
+                if members[mk]["cls"] == "Grishagin" and rng.random() < 0.7:
+                    continue
+                ops.append({"op": "construct", "slot": len(slots), "member": mk})
+                slots.append(mk)
+            elif u < 0.85:
+                s = rng.randrange(len(slots))
+                mk = slots[s]
+                o = {"op": "evaluate", "slot": s, "pt": rng.randrange(len(pts[mk]))}
+                if members[mk]["cls"] == "StronginC3" and rng.random() < 0.5:
+                    o["fid"] = rng.randrange(3)
+                ops.append(o)
+            elif u < 0.93:
+                s = rng.randrange(len(slots))
+                ops.append({"op": "solve_some", "slot": s, "k": rng.randint(1, 6)})
+            else:
+                ops.append({"op": "drop", "slot": rng.randrange(len(slots))})
+        return {"property": self.prop, "suite": "problems", "format": 1, "run_seed": run_seed, "members": members,
+                "points": pts, "ops": ops}
+
+    def check(self, plan):
+        rep = Report()
+        P = self.prop
+
+        def bad(clause, msg):
+            rep.violations.append(core.Violation(P, clause, msg, "problem"))
+        members = plan["members"]
+        # resolve points (needs box + special points of each member: from the clean-room child)
+        _, structured = fork_call(_clean_room, members, [])
+        pts = {}
+        for mk, lst in plan["points"].items():
+            st = structured[mk]
+            pts[mk] = []
+            for p in lst:
+                if p["kind"] == "special" and st["special"]:
+                    pts[mk].append(list(st["special"][p["i"] % len(st["special"])]))
+                else:
+                    t = p.get("t", [0.5] * 5)
+                    pts[mk].append([l + (h - l) * t[i] for i, (l, h) in enumerate(zip(st["lower"], st["upper"]))])
+        queries = sorted({(plan_slot_member(plan, o["slot"]), tuple(pts[plan_slot_member(plan, o["slot"])][o["pt"]]), o.get("fid"))
+                          for o in plan["ops"] if o["op"] == "evaluate"}, key=repr)
+        clean, _ = fork_call(_clean_room, members, [(a, list(b), c) for (a, b, c) in queries])
+        rep.n_exec = 2
+        slots = {}
+        events = []
+        seen = {}
+        constructed_since = {}
+        nontrivial = False
+        for i, op in enumerate(plan["ops"]):
+            k = op["op"]
+            try:
+                if k == "construct":
+                    mk = op["member"]
+                    slots[op["slot"]] = objectives.make_shipped({"family": "shipped", **members[mk]})
+                    events.append("construct %s" % mk)
+                    fam = members[mk]["cls"]
+                    for key in seen:
+                        if members[key[0]]["cls"] == fam and key[0] != mk:
+                            constructed_since[key] = True
+                elif k == "drop":
+                    slots.pop(op["slot"], None)
+                    events.append("drop")
+                elif k == "solve_some":
+                    prob = slots.get(op["slot"])
+                    if prob is None:
+                        continue
+                    s = Solver(prob, parameters=SolverParameters(r=3.0, eps=0.01, itersLimit=100))
+                    s.DoGlobalIteration(int(op["k"]))
+                    events.append("solve_some")
+                elif k == "evaluate":
+                    prob = slots.get(op["slot"])
+                    if prob is None:
+                        continue
+                    mk = plan_slot_member(plan, op["slot"])
+                    pt = pts[mk][op["pt"]]
+                    fid = op.get("fid")
+                    arr = np.array(pt, dtype=np.double)
+                    cp = np.array(arr, copy=True)
+                    holder = FunctionValue() if fid is None else FunctionValue(FunctionType.CONSTRAINT, fid)
+                    ret = prob.Calculate(Point(arr, []), holder)
+                    want = clean[(mk, tuple(pt), fid)]
+                    events.append("evaluate %s %s -> %s" % (mk, core.vhex(pt), core.fhex(getattr(ret, "value", float("nan")))))
+                    if ret is not holder:
+                        bad("holder_identity", "op %d: %s.Calculate did not return the supplied value holder" % (i, members[mk]["cls"]))
+                        break
+                    if not _arr_eq(arr, cp):
+                        bad("point_modified", "op %d: %s.Calculate modified the point %r -> %r" % (i, members[mk]["cls"], list(cp), list(arr)))
+                        break
+                    got = float(holder.value)
+                    if got != want and not (math.isnan(got) and math.isnan(want)):
+                        bad("history_dependent", "op %d: %s%r at %r returned %r, a fresh instance evaluated once returns %r"
+                            % (i, members[mk]["cls"], tuple(members[mk]["args"]), pt, got, want))
+                        break
+                    key = (mk, tuple(pt), fid)
+                    seen[key] = seen.get(key, 0) + 1
+                    if seen[key] >= 3 and constructed_since.get(key):
+                        nontrivial = True
+            except core.HarnessError:
+                raise
+            except BaseException as e:
+                _reraise_if_harness(e)
+                bad("raised", "op %d %s raised %r" % (i, k, e))
+                break
+        rep.digest = core.sha("\n".join(events))
+        rep.n_ops = len(plan["ops"])
+        rep.sig = core.short_hash([o["op"] for o in plan["ops"]])
+        if nontrivial:
+            rep.nontrivial = core.short_hash((sorted((k, v["cls"], tuple(v["args"])) for k, v in members.items()), rep.sig))
+        for mm in members.values():
+            rep.probes["family_" + mm["cls"]] += 1
+        rep.probes["evaluations"] += sum(1 for o in plan["ops"] if o["op"] == "evaluate")
+        rep.probes["solver_coactor"] += sum(1 for o in plan["ops"] if o["op"] == "solve_some")
+        return rep
+
+
+def plan_slot_member(plan, slot):
+    for o in plan["ops"]:
+        if o["op"] == "construct" and o["slot"] == slot:
+            return o["member"]
+    raise core.HarnessError("slot %r never constructed" % slot)
+
+
+# ----------------------------------------------------------------------------------- C19
+
+class QueueStates:
+    """Nondeterministic reference model of a (possibly bounded) max-priority queue: the set of
+    queue contents possible under *every* admissible tie order.  A state is a sorted tuple of
+    (key, item_id) entries."""
+    CAP = 400
+
+    def __init__(self, maxlen):
+        self.maxlen = maxlen
+        self.states = {()}
+        self.overflow = False
+
+    def _norm(self, entries):
+        return tuple(sorted(entries))
+
+    def push(self, key, iid):
+        new = set()
+        for st in self.states:
+            ent = list(st) + [(key, iid)]
+            if self.maxlen is not None and len(ent) > self.maxlen:
+                mn = min(e[0] for e in ent)
+                for e in set(x for x in ent if x[0] == mn):
+                    e2 = list(ent)
+                    e2.remove(e)
+                    new.add(self._norm(e2))
+            else:
+                new.add(self._norm(ent))
+        self._set(new)
+
+    def clear(self):
+        self.states = {()}
+
+    def _set(self, new):
+        if len(new) > self.CAP:
+            self.overflow = True
+            new = set(list(new)[: self.CAP])
+        self.states = new
+
+    def refill_state(self, pairs):
+        """states reachable by clear + push(pairs in order)"""
+        q = QueueStates(self.maxlen)
+        for key, iid in pairs:
+            q.push(key, iid)
+        return q.states
+
+    def can_be_empty(self):
+        return any(len(s) == 0 for s in self.states)
+
+    def lens(self):
+        return {len(s) for s in self.states}
+
+
+class ContainerModel:
+    def __init__(self, maxlen, dual):
+        self.dual = dual
+        self.items = {}       # id -> dict(x, g, l)
+        self.order = []       # ids by coordinate
+        self.qg = QueueStates(maxlen)
+        self.ql = QueueStates(maxlen) if dual else None
+
+    def sorted_ids(self):
+        return sorted(self.items, key=lambda i: self.items[i]["x"])
+
+    def refill_pairs(self, which):
+        return [(self.items[i][which], i) for i in self.sorted_ids()]
+
+    def pop(self, which, observed_id):
+        """Best-interval request answered with `observed_id`.  Returns None if admissible (and
+        advances the state set), else a message."""
+        q = self.qg if which == "g" else self.ql
+        other = (self.ql if which == "g" else self.qg) if self.dual else None
+        cur = lambda e: e[0] == self.items[e[1]][which]   # noqa: E731
+        new = set()
+        any_refilled = False
+        expl = []
+        for st in q.states:
+            pool = [st]
+            refilled = False
+            if self.dual:
+                cands = [e for e in st if cur(e)]
+                if not cands:
+                    # every entry is stale: all are discarded, the queue is refilled
+                    refilled = True
+                    pool = list(q.refill_state(self.refill_pairs(which)))
+            elif len(st) == 0:
+                refilled = True
+                pool = list(q.refill_state(self.refill_pairs(which)))
+            for s in pool:
+                ent = [e for e in s if (cur(e) or not self.dual)]
+                if not ent:
+                    expl.append("queue empty even after refill")
+                    continue
+                K = max(e[0] for e in ent)
+                hits = [e for e in ent if e[0] == K and e[1] == observed_id]
+                if not hits:
+                    expl.append("maximal %s key is %r (items %r)" % ("current" if self.dual else "queued", K, sorted({e[1] for e in ent if e[0] == K})))
+                    continue
+                rest = list(s)
+                rest.remove(hits[0])
+                if self.dual:
+                    rest = [e for e in rest if e[0] <= K]              # stale entries above K were discarded
+                    stale_k = [e for e in rest if e[0] == K and not cur(e)]
+                    keep_base = [e for e in rest if not (e[0] == K and not cur(e))]
+                    # any subset of the stale entries tied at K may have been discarded too
+                    for r in range(len(stale_k) + 1):
+                        for sub in itertools.combinations(range(len(stale_k)), r):
+                            kept = [e for j, e in enumerate(stale_k) if j not in sub]
+                            new.add(tuple(sorted(keep_base + kept)))
+                else:
+                    new.add(tuple(sorted(rest)))
+                if refilled:
+                    any_refilled = True
+        if not new:
+            return "; ".join(sorted(set(expl))[:3]) or "no admissible queue state"
+        q._set(new)
+        if other is not None and any_refilled:
+            # the dual container refills both queues at once; tolerate either behaviour
+            w2 = "l" if which == "g" else "g"
+            other._set(set(other.states) | set(other.refill_state(self.refill_pairs(w2))))
+        return None
+
+
+@register
+class C19(SmallSuite):
+    prop = "C19"
+    quick_runs = 40000
+    thorough_runs = 600000
+    rule = ("SearchData, SearchDataDualQueue (maxlen in {None,1,2,3,5}) and bare CharacteristicsQueue driven by random op "
+            "sequences: InsertFirstDataItem, InsertDataItem(new, hint|None) with fresh distinct coordinates and characteristics "
+            "from a small key set (ties on purpose) or all-distinct keys, ClearQueue, RefillQueue, best-interval requests "
+            "(global/local), covering-interval lookup, GetCount, traversal, and re-assignment of item characteristics (stale "
+            "entries). Oracle per op: ordered-set model (order, links, count, lookup) + a nondeterministic bounded max-queue model "
+            "tracking the set of queue contents possible under every admissible tie order; an answer no state can produce is a "
+            "violation. non-trivial: >=8 ops incl. a best-interval request after a mutation or a refill; distinct = hash of the "
+            "op-kind sequence + container kind")
+
+    def gen_plan(self, rng, tier, run_seed):
+        kind = rng.choice(["single", "single", "dual", "dual", "queue"])
+        maxlen = rng.choice([None, None, 1, 2, 3, 5])
+        distinct = rng.random() < 0.35
+        alphabet = [0.0, 1.0, 2.5, -1.0, 7.0]
+        serial = [0]
+
+        def key():
+            if distinct:
+                serial[0] += 1
+                return float("%.6g" % (rng.uniform(-10, 10))) + serial[0] * 1e-3
+            return rng.choice(alphabet[: rng.choice([2, 3, 5])])
+        ops = []
+        n_ops = rng.randint(3, 40)
+        if kind == "queue":
+            n_items = 0
+            for _ in range(n_ops):
+                u = rng.random()
+                if u < 0.55:
+                    ops.append({"op": "q_insert", "key": key(), "id": n_items})
+                    n_items += 1
+                elif u < 0.85:
+                    ops.append({"op": "q_best"})
+                elif u < 0.9:
+                    ops.append({"op": "q_clear"})
+                else:
+                    ops.append({"op": rng.choice(["q_len", "q_empty", "q_maxlen"])})
+            return {"property": self.prop, "suite": "containers", "format": 1, "run_seed": run_seed, "kind": kind,
+                    "maxlen": maxlen, "ops": ops}
+        ops.append({"op": "insert_first", "g": [key(), key()], "l": [key(), key()]})
+        xs = [0.0, 1.0]
+        for _ in range(n_ops):
+            u = rng.random()
+            if u < 0.4:
+                while True:
+                    x = float("%.6g" % rng.random()) if rng.random() < 0.8 else rng.choice(xs[:-1]) + (rng.choice(xs[1:]) - rng.choice(xs[:-1])) * 0.5
+                    if 0.0 < x < 1.0 and x not in xs:
+                        break
+                xs.append(x)
+                ops.append({"op": "insert", "x": x, "g": key(), "l": key(), "hint": rng.random() < 0.6,
+                            "rg": key() if rng.random() < 0.7 else None, "rl": key() if rng.random() < 0.7 else None})
+            elif u < 0.62:
+                ops.append({"op": "best_g"})
+            elif u < 0.7 and kind == "dual":
+                ops.append({"op": "best_l"})
+            elif u < 0.76:
+                ops.append({"op": "clear"})
+            elif u < 0.82:
+                ops.append({"op": "refill"})
+            elif u < 0.9:
+                ops.append({"op": "set_r", "i": rng.randrange(len(xs)), "g": key() if rng.random() < 0.8 else None,
+                            "l": key() if rng.random() < 0.5 else None})
+            elif u < 0.96:
+                q = rng.choice([rng.random(), rng.choice(xs[:-1]), 0.0])
+                ops.append({"op": "find", "x": q})
+            else:
+                ops.append({"op": rng.choice(["count", "walk", "last"])})
+        return {"property": self.prop, "suite": "containers", "format": 1, "run_seed": run_seed, "kind": kind,
+                "maxlen": maxlen, "ops": ops}
+
+    def check(self, plan):
+        rep = Report()
+        P = self.prop
+        kind, maxlen = plan["kind"], plan["maxlen"]
+        events = []
+
+        def bad(clause, msg):
+            rep.violations.append(core.Violation(P, clause, msg, kind))
+        try:
+            if kind == "queue":
+                self._check_queue(plan, rep, bad, events)
+            else:
+                self._check_container(plan, rep, bad, events)
+        except core.HarnessError:
+            raise
+        except BaseException as e:
+            _reraise_if_harness(e)
+            bad("raised", "container operation raised %r" % (e,))
+        rep.digest = core.sha("\n".join(events))
+        rep.n_ops = len(plan["ops"])
+        rep.sig = core.short_hash(([o["op"] for o in plan["ops"]], kind, maxlen))
+        return rep
+
+    def _check_queue(self, plan, rep, bad, events):
+        q = CharacteristicsQueue(plan["maxlen"])
+        model = QueueStates(plan["maxlen"])
+        items = {}
+        mutated = False
+        best_after = False
+        for i, op in enumerate(plan["ops"]):
+            k = op["op"]
+            if k == "q_insert":
+                it = SearchDataItem(Point(np.array([0.0]), []), float(op["id"]))
+                items[op["id"]] = it
+                q.Insert(op["key"], it)
+                model.push(op["key"], op["id"])
+                mutated = True
+                events.append("insert %r %d" % (op["key"], op["id"]))
+            elif k == "q_best":
+                if model.can_be_empty():
+                    continue          # precondition: non-empty
+                got = q.GetBestItem()
+                gid = [j for j, it in items.items() if it is got[0]]
+                new = set()
+                why = []
+                for st in model.states:
+                    K = max(e[0] for e in st)
+                    hit = [e for e in st if e[0] == K and gid and e[1] == gid[0]]
+                    if hit and got[1] == K:
+                        r = list(st)
+                        r.remove(hit[0])
+                        new.add(tuple(sorted(r)))
+                    else:
+                        why.append("max queued key %r held by items %r" % (K, sorted({e[1] for e in st if e[0] == K})))
+                events.append("best -> %r" % (gid,))
+                if not new:
+                    bad("best_not_max", "op %d: GetBestItem returned item %r with key %r; %s" % (i, gid, got[1], "; ".join(sorted(set(why))[:2])))
+                    return
+                model._set(new)
+                best_after = best_after or mutated
+            elif k == "q_clear":
+                q.Clear()
+                model.clear()
+                mutated = True
+                events.append("clear")
+            elif k == "q_len":
+                n = q.GetLen()
+                if n not in model.lens():
+                    bad("len", "op %d: GetLen()=%d, model allows %r" % (i, n, sorted(model.lens())))
+                    return
+            elif k == "q_empty":
+                e = q.IsEmpty()
+                if (e and 0 not in model.lens()) or (not e and model.lens() == {0}):
+                    bad("empty", "op %d: IsEmpty()=%r, model length %r" % (i, e, sorted(model.lens())))
+                    return
+            elif k == "q_maxlen":
+                if q.GetMaxLen() != plan["maxlen"]:
+                    bad("maxlen", "GetMaxLen()=%r, configured %r" % (q.GetMaxLen(), plan["maxlen"]))
+                    return
+        if model.overflow:
+            rep.inconclusive["state_set_capped"] += 1
+        if len(plan["ops"]) >= 8 and best_after:
+            rep.nontrivial = core.short_hash(([o["op"] for o in plan["ops"]], "queue", plan["maxlen"]))
+        rep.probes["queue_runs"] += 1
+        rep.probes["bounded_runs"] += int(plan["maxlen"] is not None)
+
+    def _check_container(self, plan, rep, bad, events):
+        kind, maxlen = plan["kind"], plan["maxlen"]
+        dual = kind == "dual"
+        sd = (SearchDataDualQueue if dual else SearchData)(None, maxlen)
+        model = ContainerModel(maxlen, dual)
+        items = {}      # id -> real item
+        nid = [0]
+        mutated = False
+        best_after = False
+
+        def mk(x, g, l):
+            it = SearchDataItem(Point(np.array([x]), []), x)
+            it.globalR = g
+            it.localR = l
+            i = nid[0]
+            nid[0] += 1
+            items[i] = it
+            model.items[i] = {"x": x, "g": g, "l": l}
+            return i, it
+
+        def id_of(it):
+            for i, v in items.items():
+                if v is it:
+                    return i
+            return None
+
+        def check_structure(where):
+            walk = []
+            for it in sd:
+                walk.append(it)
+                if len(walk) > len(items) + 4:
+                    break
+            ids = [id_of(it) for it in walk]
+            want = model.sorted_ids()
+            if ids != want:
+                bad("traversal", "%s: traversal yields items %r (coordinates %r), expected %r" % (where, ids, [float(it.GetX()) for it in walk], want))
+                return False
+            for j, it in enumerate(walk):
+                l = it.GetLeft()
+                r = it.GetRight()
+                if (l is not (walk[j - 1] if j > 0 else None)) or (r is not (walk[j + 1] if j + 1 < len(walk) else None)):
+                    bad("links", "%s: neighbour links of item %r are inconsistent" % (where, ids[j]))
+                    return False
+            if sd.GetCount() != len(want):
+                bad("count", "%s: GetCount()=%d, %d items inserted" % (where, sd.GetCount(), len(want)))
+                return False
+            return True
+        for i, op in enumerate(plan["ops"]):
+            k = op["op"]
+            if k == "insert_first":
+                li, l = mk(0.0, op["g"][0], op["l"][0])
+                ri, r = mk(1.0, op["g"][1], op["l"][1])
+                sd.InsertFirstDataItem(l, r)
+                events.append("insert_first")
+            elif k == "insert":
+                x = op["x"]
+                right_id = None
+                for j in model.sorted_ids():
+                    if model.items[j]["x"] > x:
+                        right_id = j
+                        break
+                ni, it = mk(x, op["g"], op["l"])
+                if op["hint"]:
+                    # Method re-computes the right neighbour's characteristics before inserting
+                    if op.get("rg") is not None:
+                        items[right_id].globalR = op["rg"]
+                        model.items[right_id]["g"] = op["rg"]
+                    if op.get("rl") is not None:
+                        items[right_id].localR = op["rl"]
+                        model.items[right_id]["l"] = op["rl"]
+                    sd.InsertDataItem(it, items[right_id])
+                else:
+                    sd.InsertDataItem(it)
+                model.qg.push(op["g"], ni)
+                if dual:
+                    model.ql.push(op["l"], ni)
+                if op["hint"]:
+                    model.qg.push(model.items[right_id]["g"], right_id)
+                    if dual:
+                        model.ql.push(model.items[right_id]["l"], right_id)
+                mutated = True
+                events.append("insert %r hint=%r" % (x, op["hint"]))
+                if not check_structure("op %d insert" % i):
+                    return
+            elif k in ("best_g", "best_l"):
+                which = k[-1]
+                got = sd.GetDataItemWithMaxGlobalR() if which == "g" else sd.GetDataItemWithMaxLocalR()
+                gid = id_of(got)
+                events.append("%s -> %r" % (k, gid))
+                msg = model.pop(which, gid)
+                if msg is not None:
+                    bad("best_not_max", "op %d: best-%s request returned item %r (queued/current key %r); %s"
+                        % (i, "global" if which == "g" else "local", gid, model.items[gid][which] if gid is not None else None, msg))
+                    return
+                best_after = best_after or mutated
+            elif k == "clear":
+                sd.ClearQueue()
+                model.qg.clear()
+                if dual:
+                    model.ql.clear()
+                mutated = True
+                events.append("clear")
+            elif k == "refill":
+                sd.RefillQueue()
+                model.qg._set(set(model.qg.refill_state(model.refill_pairs("g"))))
+                if dual:
+                    model.ql._set(set(model.ql.refill_state(model.refill_pairs("l"))))
+                mutated = True
+                events.append("refill")
+            elif k == "set_r":
+                ids = model.sorted_ids()
+                j = ids[op["i"] % len(ids)]
+                if op.get("g") is not None:
+                    items[j].globalR = op["g"]
+                    model.items[j]["g"] = op["g"]
+                if op.get("l") is not None:
+                    items[j].localR = op["l"]
+                    model.items[j]["l"] = op["l"]
+                mutated = True
+                events.append("set_r %d" % j)
+            elif k == "find":
+                x = op["x"]
+                got = sd.FindDataItemByOneDimensionalPoint(x)
+                want = None
+                for j in model.sorted_ids():
+                    if model.items[j]["x"] > x:
+                        want = j
+                        break
+                events.append("find %r -> %r" % (x, id_of(got)))
+                if id_of(got) != want:
+                    bad("lookup", "op %d: covering-interval lookup of %r returned item %r, first item to the right is %r" % (i, x, id_of(got), want))
+                    return
+            elif k in ("count", "walk"):
+                if not check_structure("op %d %s" % (i, k)):
+                    return
+            elif k == "last":
+                sd.GetLastItem()
+        if model.qg.overflow or (dual and model.ql.overflow):
+            rep.inconclusive["state_set_capped"] += 1
+        if len(plan["ops"]) >= 8 and best_after:
+            rep.nontrivial = core.short_hash(([o["op"] for o in plan["ops"]], kind, maxlen))
+        rep.probes[kind + "_runs"] += 1
+        rep.probes["bounded_runs"] += int(maxlen is not None)
+        rep.probes["best_requests"] += sum(1 for o in plan["ops"] if o["op"].startswith("best"))
